@@ -11,7 +11,7 @@ R: every script of the universe is given random payloads and fed to the real scr
 """
 import random
 
-from lib import btc, chains, datadir, ref, run, scriptrep
+from lib import wirerep, btc, chains, datadir, ref, run, scriptrep
 
 FAMILY = {'C05': ['bitcoin', 'testnet3'], 'C06': btc.FORK_COINS}
 
@@ -102,12 +102,26 @@ def main(ck, tier, w, pid='C05'):
 
     # end to end: the same verdicts must appear in the CSV address column and in simplestats' type counts
     r0 = random.Random('%d-%s-e2e' % (seed, pid))
-    for coin in (coins if not quick else coins[:2]):
+    for coin in (coins if not quick else sorted(set(coins[:2]) | {c for c in coins if c in wirerep.THRESH})):
         pick = r0.sample(conc, 60)
         # incl. scripts longer than 10 000 bytes: the pipeline must hand every script to the evaluator, whatever its size
         spks = [c[1] for c in pick] + [x for x in extra if 10000 <= len(x) <= 21000][:5]
         txs_fn = lambda h, c, spks=spks: [btc.coinbase(h, None, outs=[{'val': 10 ** 8 + i, 'spk': s} for i, s in enumerate(spks[h::3])] or [{'val': 1, 'spk': b'\x51'}])]
-        blocks = chains.std_chain(3, coin, txs_fn=txs_fn)
+        # header versions on both sides of the coin's AuxPoW activation version (with a well-formed AuxPoW section where the coin
+        # has one): which evaluator and which version byte apply depends on the coin alone
+        act = wirerep.THRESH.get(coin)
+        vers = [1, act, act + 1] if act else [1, 2, 0x20000000]
+        if r0.random() < 0.5:
+            vers = vers[::-1]
+        blocks, prev = [], b'\0' * 32
+        for h, ver in enumerate(vers):
+            aux = None
+            if act and ver >= act:
+                aux = btc.auxpow({'ver': 1, 'ins': [{'txid': b'\0' * 32, 'idx': 0xffffffff, 'sig': b'\x03abc', 'seq': 0xffffffff}],
+                                  'outs': [{'val': 50, 'spk': btc.p2pkh(b'\x07' * 20)}], 'lock': 0}, r0.randbytes(32), [r0.randbytes(32)] * (h % 3), 0,
+                                 [r0.randbytes(32)] * (h % 2), 0, btc.header(1, r0.randbytes(32), r0.randbytes(32), 5, 0x1d00ffff, 7))
+            blocks.append(datadir.mk_block(prev, txs_fn(h, coin), t=1231006505 + 600 * h, ver=ver, nonce=h, aux=aux))
+            prev = blocks[-1]['hash']
         d = datadir.simple_dir(w.sub('dd'), blocks, coin).write()
         r = run.run_parser(d, 'csvdump', dump=w.mk('out'), coin=coin)
         exp, _ = ref.csv_expected(list(enumerate(blocks)), coin)
